@@ -114,6 +114,17 @@ func genC11(seed uint64) *Plan {
 	if g.pct(30) {
 		g.P.Events = append(g.P.Events, Event{AtMs: g.rng(1, 15000), Kind: "rehash"})
 	}
+	if g.pct(30) {
+		// leadership moves while a produce response is on its way, and the
+		// client refreshes its metadata before the response arrives
+		if g.P.K["nbroker"] < 2 {
+			g.P.K["nbroker"] = g.rng(2, 3)
+		}
+		g.P.K["meta_max_ms"] = g.pick(300, 1000)
+		for i := 0; i < int(g.rng(1, 3)); i++ {
+			g.fault(Fault{Kind: "delay_resp_move", Broker: -1, Key: 0, Nth: int(g.rng(1, 14)), DurMs: g.pick(1000, 2500, 4000)})
+		}
+	}
 	return g.P
 }
 
